@@ -88,7 +88,7 @@ install(globals(), 'C02', view, oracle,
         level_note='Trusted: Lean kernel + standard axioms; scheduler model ~ Engine.run_for via trace '
                    'correspondence; float interval lengths are compared up to 1e-9 of a tick.',
         technique='Lean 4 invariant proof over the scheduler loop + event-trace correspondence',
-        required=['update_zero_is_noop', 'drained_after_zero_update', 'timestep_is_interval', 'timestep_requested_or_remainder', 'drained_after_update', 'noPending_after_runFor',
+        required=['update_zero_is_noop', 'drained_after_zero_update', 'zero_update_timesteps_positive', 'timestep_is_interval', 'timestep_requested_or_remainder', 'drained_after_update', 'noPending_after_runFor',
                   'intervals_contiguous', 'timesteps_sum_to_elapsed', 'timesteps_sum_after_update'])
 
 
